@@ -31,15 +31,15 @@ INVARIANTS = ["P01_once", "P02_gate", "P03_prompt", "P04_stray", "P05_content", 
 
 def mc_cfg_text(table, ids="Ids1", max_inst=1, max_pw=2, stray=0, junk=False, emit_mod=0, bug="NoBug",
                 timeout_on=True, invariants=None, rich=False, pw_on=True, simulate=False, rich_sel="NoRich",
-                script="NoScript"):
+                script="NoScript", sim_depth=38):
     inv = list(INVARIANTS if invariants is None else invariants)
     if simulate:
         inv.append("SimEmit")
     return ("CONSTANTS\n  Services <- %s\n  TimeoutOn = %s\n  Bug <- %s\n  Ids <- %s\n  MaxInst = %d\n  MaxPw = %d\n"
-            "  StrayLevel = %d\n  JunkOn = %s\n  Rich = %s\n  PwOn = %s\n  RichSel <- %s\n  Script <- %s\n  EmitMod = %d\nINIT MCInit\nNEXT MCNext\nVIEW MCView\n"
+            "  StrayLevel = %d\n  JunkOn = %s\n  Rich = %s\n  PwOn = %s\n  RichSel <- %s\n  Script <- %s\n  EmitMod = %d\n  SimDepth = %d\nINIT MCInit\nNEXT MCNext\nVIEW MCView\n"
             "%s%s\n") % (
         table, "TRUE" if timeout_on else "FALSE", bug, ids, max_inst, max_pw, stray,
-        "TRUE" if junk else "FALSE", "TRUE" if rich else "FALSE", "TRUE" if pw_on else "FALSE", rich_sel, script, emit_mod,
+        "TRUE" if junk else "FALSE", "TRUE" if rich else "FALSE", "TRUE" if pw_on else "FALSE", rich_sel, script, emit_mod, sim_depth,
         "" if simulate else "ACTION_CONSTRAINT Emit\n", "\n".join("INVARIANT " + i for i in inv))
 
 
@@ -47,7 +47,7 @@ def model_check(ctx, name, table, workers=16, timeout=1500, want_behaviours=Fals
     """TLC run of MCIAuth (exhaustive, or simulate="num=N"); returns (TLCResult, behaviours or None)."""
     cfg = os.path.join(ctx.scratch, "mc_%s.cfg" % name)
     with open(cfg, "w") as f:
-        f.write(mc_cfg_text(table, simulate=bool(simulate), **kw))
+        f.write(mc_cfg_text(table, simulate=bool(simulate), sim_depth=max(2, depth - 2), **kw))
     outp = os.path.join(ctx.scratch, "mc_%s.out" % name) if want_behaviours else None
     r = ctx.tlc("MCIAuth", cfg, workers=workers, timeout=timeout, stdout_path=outp, heap="12g", seed=ctx.seed,
                 simulate=simulate, depth=depth if simulate else None)
@@ -62,6 +62,14 @@ def model_check(ctx, name, table, workers=16, timeout=1500, want_behaviours=Fals
                 if line.startswith('"@@E'):
                     beh.append(json.loads(json.loads(line)[3:]))
         os.unlink(outp)
+        if simulate and beh:
+            # in simulation mode TLC evaluates the emitting invariant on every candidate successor of a trace's last state:
+            # the printed behaviours come in families that share all but the last step; keep at most three per family
+            fam = {}
+            for b in beh:
+                fam.setdefault(json.dumps([x["e"] for x in b[:-1]], sort_keys=True), []).append(b)
+            rng = ctx.rng
+            beh = [b for k in sorted(fam) for b in rng.sample(fam[k], min(3, len(fam[k])))]
     return r, beh
 
 
